@@ -10,6 +10,9 @@ CONSTANTS
   AllowNoSync = FALSE
   FixOOB = TRUE
   FixFirstRb = TRUE
+  AllowCrash = FALSE
+  FixJournalNoPS = TRUE
+  FixModeOnOpen = TRUE
   AllowRetain = TRUE
   Emit = "idle"
 VIEW view
